@@ -113,6 +113,12 @@ class Fn:
         self.dep_calls = {}      # normalised source text of a dependent call -> integer variable
         self.auto_params = []
         self._declared = set()
+        self.world = False       # opaque calls become calls of the world W (effects threaded through `w`)
+        self.world_calls = []    # names of world calls, in source order
+        self.loop_exit = None    # closure producing the exit term of the innermost loop (for `break`)
+        self.loop_continue = None
+        self.return_is_break = False   # void function whose last statement is the loop: `return;` inside it == break
+        self.byref_calls = {}    # callee text -> (coq function, [indices of integer input args], result variable)
         self.ret_scalar = False
         self.literals = []       # numeric literals met, in source order
 
@@ -137,13 +143,27 @@ class Fn:
             return 'bool' if canon(t) == 'bool' else 'Z'
         if is_vec_int(t):
             return 'list Z'
+        if is_enum(t):
+            return 'Z'
         return 'opaque'
 
     # ------------------------------------------------------------- expressions
+    def member_name(self, n):
+        """`m_x` / `this->m_x`, also when the member lives in a dependent base (UnresolvedMemberExpr)"""
+        if n['kind'] == 'MemberExpr' and kids(n) and kids(n)[0]['kind'] == 'CXXThisExpr':
+            return n['name']
+        if n['kind'] in ('UnresolvedMemberExpr', 'CXXDependentScopeMemberExpr', 'UnresolvedLookupExpr', 'DependentScopeDeclRefExpr'):
+            t = re.sub(r'^this->', '', re.sub(r'\s+', '', self.A.src_text(n)))
+            if re.match(r'^\w+$', t) and t in self.types and t in self._declared:
+                return t
+        return None
+
     def lvalue_name(self, n):
         n = strip(n)
         if n['kind'] == 'DeclRefExpr':
             return n['referencedDecl']['name']
+        if self.member_name(n) is not None:
+            return self.member_name(n)
         if n['kind'] == 'MemberExpr' and kids(n) and kids(n)[0]['kind'] == 'CXXThisExpr':
             return n['name']
         raise TranslationError('unsupported lvalue %s in %s' % (n['kind'], self.name))
@@ -178,8 +198,10 @@ class Fn:
             if rd.get('kind') == 'EnumConstantDecl':
                 return True
             return self.types.get(rd.get('name')) in ('Z', 'bool')
+        if self.member_name(n) is not None:
+            return self.types.get(self.member_name(n)) in ('Z', 'bool')
         if k == 'MemberExpr':
-            return bool(kids(n)) and kids(n)[0]['kind'] == 'CXXThisExpr' and self.types.get(n.get('name')) in ('Z', 'bool')
+            return False
         if k in ('ImplicitCastExpr', 'CStyleCastExpr', 'CXXStaticCastExpr', 'CXXFunctionalCastExpr'):
             if n.get('castKind') in ('IntegralCast', 'LValueToRValue', 'NoOp', 'IntegralToBoolean') or is_dependent(n):
                 return (is_int_type(qual(n)) or is_enum(qual(n)) or is_dependent(n)) and self.int_like(kids(n)[-1])
@@ -235,7 +257,7 @@ class Fn:
             return '(negb %s)' % self.cond(kids(n)[0])
         if k == 'CXXBoolLiteralExpr':
             return 'true' if n.get('value') else 'false'
-        if k in ('DeclRefExpr', 'MemberExpr'):
+        if k in ('DeclRefExpr', 'MemberExpr') or self.member_name(n) is not None:
             nm = self.lvalue_name(n)
             if self.types.get(nm) == 'bool':
                 return self.cur(nm)
@@ -313,6 +335,8 @@ class Fn:
             if self.types[nm] != 'Z':
                 raise TranslationError('`%s` used as integer in %s' % (nm, self.name))
             return self.cur(nm)
+        if self.member_name(n) is not None and k != 'MemberExpr':
+            return self.cur(self.member_name(n))
         if k == 'MemberExpr':
             if kids(n) and kids(n)[0]['kind'] == 'CXXThisExpr':
                 nm = n['name']
@@ -375,7 +399,7 @@ class Fn:
     def terminates(self, s):
         s = strip(s)
         k = s['kind']
-        if k in ('ReturnStmt', 'CXXThrowExpr'):
+        if k in ('ReturnStmt', 'CXXThrowExpr', 'BreakStmt', 'ContinueStmt'):
             return True
         if k == 'CompoundStmt':
             ss = kids(s)
@@ -392,26 +416,75 @@ class Fn:
             k = s['kind']
             if k in ('BinaryOperator', 'CompoundAssignOperator') and s.get('opcode', '').endswith('=') and s['opcode'] not in ('==', '!=', '<=', '>='):
                 tgt = strip(kids(s)[0])
-                if tgt['kind'] in ('DeclRefExpr', 'MemberExpr'):
-                    out.append(self.lvalue_name(tgt))
+                if tgt['kind'] in ('DeclRefExpr', 'MemberExpr') or self.member_name(tgt) is not None:
+                    try:
+                        out.append(self.lvalue_name(tgt))
+                    except TranslationError:
+                        pass
                 elif tgt['kind'] == 'CXXOperatorCallExpr':
                     out.append(self.lvalue_name(strip_casts(kids(tgt)[1])))
             elif k == 'UnaryOperator' and s['opcode'] in ('++', '--'):
-                out.append(self.lvalue_name(kids(s)[0]))
+                try:
+                    out.append(self.lvalue_name(kids(s)[0]))
+                except TranslationError:
+                    pass
             elif k == 'CompoundStmt':
                 out += self.assigned(kids(s))
             elif k == 'IfStmt':
                 out += self.assigned(kids(s)[1:])
             elif k == 'ForStmt':
-                out += self.assigned(for_parts(s)[3:])
+                fp = for_parts(s)
+                out += self.assigned([x for x in (fp[0], fp[3]) if x is not None and x['kind'] != 'DeclStmt'])
+            elif k == 'WhileStmt':
+                out += self.assigned(kids(s)[1:])
             elif k == 'CXXOperatorCallExpr':
                 callee = strip_casts(kids(s)[0]).get('referencedDecl', {}).get('name', '')
                 if callee == 'operator=':
                     tgt = strip(kids(s)[1])
                     if tgt['kind'] == 'CXXOperatorCallExpr':
                         out.append(self.lvalue_name(strip_casts(kids(tgt)[1])))
+        if self.byref_calls:
+            for st in ss:
+                for x in walk_expr(st):
+                    if x['kind'] in ('CallExpr', 'CXXMemberCallExpr') and kids(x):
+                        nm_ = re.sub(r'^this->', '', re.sub(r'\s+', '', self.A.src_text(kids(x)[0])))
+                        if nm_ in self.byref_calls:
+                            out.append(self.byref_calls[nm_][2])
+        if self.world and any(self.has_world_call(x) for x in ss):
+            out.append('wld')
         # only variables we track
-        return [v for v in dict.fromkeys(out) if self.types.get(v) in ('Z', 'list Z', 'bool')]
+        return [v for v in dict.fromkeys(out) if self.types.get(v) in ('Z', 'list Z', 'bool', 'Wst')]
+
+    def opaque_call(self, n):
+        """a call whose effect is outside the integer model (member functions, Eigen expressions)"""
+        n = strip(n)
+        if n['kind'] not in ('CallExpr', 'CXXMemberCallExpr'):
+            return None
+        if self.mapped(n) is not None or self.int_like(n):
+            return None
+        callee = kids(n)[0]
+        name = re.sub(r'\s+', '', self.A.src_text(callee))
+        name = re.sub(r'^this->', '', name)
+        if name in self.byref_calls:
+            return None
+        args = [a for a in kids(n)[1:] if self.int_like(a)]
+        return name, args
+
+    def has_world_call(self, n):
+        for x in walk_expr(n):
+            if x['kind'] in ('CallExpr', 'CXXMemberCallExpr') and self.opaque_call(x) is not None:
+                return True
+        return False
+
+    def world_call(self, n, result_var, nxt):
+        name, args = self.opaque_call(n)
+        self.world_calls.append(name)
+        a = '; '.join(self.expr(x) for x in args)
+        w0 = self.cur('wld')
+        w1 = self.fresh('wld')
+        r = self.fresh(result_var) if result_var else '_'
+        return ('match W %s [%s] %s with\n| Throw e_ m_ => Throw e_ m_\n| Ok (%s, %s) =>\n%s\nend'
+                % (coq_string(name), a, w0, w1, r, nxt()))
 
     def tup(self, xs):
         if not xs:
@@ -434,6 +507,12 @@ class Fn:
             return self.block(kids(s) + rest, k)
         if kind == 'NullStmt':
             return nxt()
+        if kind == 'DoStmt':
+            # only the inert expansion `do { } while (0)` of a disabled hook macro is accepted
+            ks = kids(s)
+            if ks and ks[0]['kind'] == 'CompoundStmt' and not kids(ks[0]):
+                return nxt()
+            raise TranslationError('unsupported do-while loop in %s' % self.name)
         if kind == 'DeclStmt':
             out = []
             for d in kids(s):
@@ -466,13 +545,15 @@ class Fn:
             tgt = strip(kids(s)[0])
             if tgt['kind'] == 'CXXOperatorCallExpr':       # v[e] = x
                 return self.vec_store(tgt, kids(s)[1], s, nxt)
-            if tgt['kind'] not in ('DeclRefExpr', 'MemberExpr'):
+            if tgt['kind'] not in ('DeclRefExpr', 'MemberExpr') and self.member_name(tgt) is None:
                 return nxt()                              # float/matrix statement: outside the integer model
             if tgt['kind'] == 'MemberExpr' and not (kids(tgt) and kids(tgt)[0]['kind'] == 'CXXThisExpr'):
                 return nxt()
             nm = self.lvalue_name(tgt)
             if self.types.get(nm) not in ('Z', 'bool'):
                 return nxt()
+            if self.world and self.types[nm] == 'Z' and s['opcode'] == '=' and self.opaque_call(kids(s)[1]) is not None:
+                return self.world_call(kids(s)[1], nm, nxt)
             if self.types[nm] == 'Z' and not self.int_like(kids(s)[1]):
                 raise TranslationError('integer `%s` assigned from a non-integer expression `%s` in %s' % (nm, self.A.src_text(kids(s)[1]), self.name))
             if self.types[nm] == 'bool':
@@ -491,7 +572,9 @@ class Fn:
             return 'let %s := %s in\n%s' % (self.fresh(nm), wrap(t, e), nxt())
         if kind == 'UnaryOperator' and s['opcode'] in ('++', '--'):
             tgt = strip(kids(s)[0])
-            if is_dependent(s):
+            if tgt['kind'] not in ('DeclRefExpr', 'MemberExpr') and self.member_name(tgt) is None:
+                return nxt()
+            if tgt['kind'] == 'MemberExpr' and not (kids(tgt) and kids(tgt)[0]['kind'] == 'CXXThisExpr'):
                 return nxt()
             nm = self.lvalue_name(tgt)
             if self.types.get(nm) != 'Z':
@@ -524,19 +607,28 @@ class Fn:
                 return '(if %s then\n%s\nelse\n%s)' % (c, tt, ee)
             names = self.assigned(thn + els)
             saved = dict(self.ver)
-            tt = self.block(thn, lambda: self.tup([self.cur(x) for x in names]))
+            eff = self.world and any(self.has_world_call(x) for x in thn + els)
+            okw = (lambda t: '(Ok %s)' % t) if eff else (lambda t: t)
+            tt = self.block(thn, lambda: okw(self.tup([self.cur(x) for x in names])))
             after_t = dict(self.ver)
             self.ver = dict(saved)
-            ee = self.block(els, lambda: self.tup([self.cur(x) for x in names]))
+            ee = self.block(els, lambda: okw(self.tup([self.cur(x) for x in names])))
             self.ver = {x: max(after_t.get(x, 0), self.ver.get(x, 0)) for x in set(after_t) | set(self.ver)}
             if not names:
                 return nxt()
             news = [self.fresh(x) for x in names]
+            if eff:
+                return ('match (if %s then\n%s\n  else\n%s) with\n| Throw e_ m_ => Throw e_ m_\n| Ok %s =>\n%s\nend'
+                        % (c, tt, ee, self.tup(news) if len(news) > 1 else news[0], nxt()))
             return 'let %s :=\n  (if %s then\n%s\n  else\n%s) in\n%s' % (self.pat(news), c, tt, ee, nxt())
         if kind == 'ForStmt':
             return self.for_loop(s, nxt)
+        if kind == 'WhileStmt':
+            return self.while_loop(s, nxt)
         if kind == 'ReturnStmt':
             ks = kids(s)
+            if not ks and self.return_is_break and self.loop_exit is not None:
+                return self.loop_exit()
             if not ks:
                 return self.ret('tt')
             rt = qual(ks[0])
@@ -551,6 +643,24 @@ class Fn:
             return self.ret('tt (* non-integer result *)')
         if kind == 'CXXThrowExpr':
             return self.throw(s)
+        if kind == 'ContinueStmt':
+            if self.loop_continue is None:
+                raise TranslationError('continue outside a translated loop in %s' % self.name)
+            return self.loop_continue()
+        if kind == 'BreakStmt':
+            if self.loop_exit is None:
+                raise TranslationError('break outside a translated loop in %s' % self.name)
+            return self.loop_exit()
+        if kind in ('CallExpr', 'CXXMemberCallExpr') and self.byref_calls:
+            nm_ = re.sub(r'^this->', '', re.sub(r'\s+', '', self.A.src_text(kids(s)[0])))
+            if nm_ in self.byref_calls:
+                fn_, idx_, out_ = self.byref_calls[nm_]
+                args_ = kids(s)[1:]
+                ins_ = ' '.join(self.expr(args_[i]) for i in idx_)
+                cur_ = self.cur(out_)
+                return 'let %s := %s orc %s %s in\n%s' % (self.fresh(out_), fn_, ins_, cur_, nxt())
+        if self.world and kind in ('CallExpr', 'CXXMemberCallExpr') and self.opaque_call(s) is not None:
+            return self.world_call(s, None, nxt)
         if kind in ('CallExpr', 'CXXMemberCallExpr', 'CXXOperatorCallExpr', 'CXXDependentScopeMemberExpr',
                     'UnresolvedMemberExpr', 'CXXUnresolvedConstructExpr') or is_dependent(s):
             if kind == 'CXXOperatorCallExpr':
@@ -607,6 +717,8 @@ class Fn:
         return 'let %s := upd %s (Z.to_nat %s) %s in\n%s' % (self.fresh(v), c, idx, val, nxt())
 
     def ret(self, e):
+        if self.world and 'wld' not in self.result_vars:
+            self.result_vars = list(self.result_vars) + ['wld']
         if self.result_vars:
             rv = [self.cur(v) for v in self.result_vars]
             e = self.tup(rv) if e.startswith('tt') else self.tup([e] + rv)
@@ -639,7 +751,7 @@ class Fn:
             return '(of_Z o %s)' % n['value']
         if k == 'DeclRefExpr':
             nm = n['referencedDecl']['name']
-            if self.types.get(nm) == 'S':
+            if self.types.get(nm) == 'Scalar':
                 return self.cur(nm)
             if self.types.get(nm) == 'Z':
                 return '(of_Z o %s)' % self.cur(nm)
@@ -674,68 +786,117 @@ class Fn:
         return '(Throw %s %s)' % (coq_string(typ), coq_string(msg))
 
     # ------------------------------------------------------------------ loops
-    def for_loop(self, s, nxt):
-        init, cnd, inc, bdy = for_parts(s)
-        if init is None or init['kind'] != 'DeclStmt':
-            raise TranslationError('for-loop without a declared induction variable in %s' % self.name)
-        vd = [d for d in kids(init) if d['kind'] == 'VarDecl']
-        if len(vd) != 1 or not is_int_type(qual(vd[0])):
-            raise TranslationError('for-loop induction variable is not one integer in %s' % self.name)
-        iv = vd[0]['name']
-        start = self.expr(kids(vd[0])[0])
-        self.types[iv] = 'Z'
-        ivn = self.fresh_decl(iv)
+    def while_loop(self, s, nxt):
+        """`while (v < b && ...) { ...; v++; }` with v a tracked integer incremented as the LAST statement."""
+        ks = kids(s)
+        cnd, bdy = ks[0], ks[-1]
+        first = strip(cnd)
+        while first['kind'] == 'BinaryOperator' and first['opcode'] == '&&':
+            first = strip(kids(first)[0])
+        if not (first['kind'] == 'BinaryOperator' and first['opcode'] in ('<', '<=') and strip_casts(kids(first)[0])['kind'] == 'DeclRefExpr'):
+            raise TranslationError('while-loop condition does not start with `v < b` in %s' % self.name)
+        iv = strip_casts(kids(first)[0])['referencedDecl']['name']
+        if self.types.get(iv) != 'Z':
+            raise TranslationError('while-loop counter `%s` is not a tracked integer in %s' % (iv, self.name))
+        body = kids(bdy) if bdy['kind'] == 'CompoundStmt' else [bdy]
+        last = strip(body[-1]) if body else None
+        if not (last is not None and last['kind'] == 'UnaryOperator' and last['opcode'] == '++'
+                and strip(kids(last)[0]).get('referencedDecl', {}).get('name') == iv):
+            raise TranslationError('while-loop does not end with `%s++` in %s' % (iv, self.name))
+        fake_body = {'kind': 'CompoundStmt', 'inner': body[:-1]}
+        return self.for_loop(s, nxt, parts=(iv, cnd, fake_body))
+
+    def for_loop(self, s, nxt, parts=None):
+        if parts is not None:
+            iv, cnd, bdy = parts
+            init, inc = None, None
+            outer_iv = True
+            start = self.cur(iv)
+            self.fresh(iv)
+        else:
+            init, cnd, inc, bdy = for_parts(s)
+        if parts is not None:
+            pass
+        elif init is None:
+            raise TranslationError('for-loop without initialisation in %s' % self.name)
+        elif init['kind'] == 'DeclStmt':
+            outer_iv = False
+            vd = [d for d in kids(init) if d['kind'] == 'VarDecl']
+            if len(vd) != 1 or not is_int_type(qual(vd[0])):
+                raise TranslationError('for-loop induction variable is not one integer in %s' % self.name)
+            iv = vd[0]['name']
+            start = self.expr(kids(vd[0])[0])
+            self.types[iv] = 'Z'
+            self.fresh_decl(iv)
+        else:
+            outer_iv = False
+            i0 = strip(init)
+            if not (i0['kind'] == 'BinaryOperator' and i0['opcode'] == '=' and strip(kids(i0)[0])['kind'] == 'DeclRefExpr'):
+                raise TranslationError('for-loop initialisation is not `i = a` in %s' % self.name)
+            iv = strip(kids(i0)[0])['referencedDecl']['name']
+            if self.types.get(iv) != 'Z':
+                raise TranslationError('for-loop induction variable `%s` is not a tracked integer in %s' % (iv, self.name))
+            start = self.expr(kids(i0)[1])
+            outer_iv = True
+            self.fresh(iv)
         # condition i < b / i <= b [&& more]
         cn = strip(cnd)
-        conj = []
         first = cn
         while first['kind'] == 'BinaryOperator' and first['opcode'] == '&&':
-            conj.append(kids(first)[1])
             first = strip(kids(first)[0])
         if not (first['kind'] == 'BinaryOperator' and first['opcode'] in ('<', '<=')
                 and strip_casts(kids(first)[0]).get('referencedDecl', {}).get('name') == iv):
             raise TranslationError('for-loop condition not of the form i < b in %s' % self.name)
         bound_node = kids(first)[1]
-        # increment must be i++ / ++i
         ic = strip(inc) if inc else None
-        if not (ic and ic['kind'] == 'UnaryOperator' and ic['opcode'] == '++'
+        if parts is None and not (ic and ic['kind'] == 'UnaryOperator' and ic['opcode'] == '++'
                 and strip(kids(ic)[0]).get('referencedDecl', {}).get('name') == iv):
             raise TranslationError('for-loop increment is not i++ in %s' % self.name)
         body_ss = [bdy]
         carried = [v for v in self.assigned(body_ss) if v != iv]
-        # bound must not be assigned in the body; i only incremented
         bound_vars = [x.get('referencedDecl', {}).get('name') for x in walk_expr(bound_node) if x['kind'] == 'DeclRefExpr']
         if any(v in carried or v == iv for v in bound_vars):
             raise TranslationError('for-loop bound modified in body in %s' % self.name)
         self.check_only_incremented(bdy, iv)
-        # free variables = every tracked variable currently in scope
-        scope = [v for v in self.types if self.types[v] in ('Z', 'list Z', 'bool') and v != iv and v in self._declared]
+        results = ([iv] if outer_iv else []) + carried       # what the loop hands back
+        scope = [v for v in self.types if self.types[v] in ('Z', 'list Z', 'bool', 'Wst') and v != iv and v in self._declared]
         self.nloop += 1
         lname = '%s_loop%d' % (self.name, self.nloop)
         saved_ver = dict(self.ver)
-        # inside the Fixpoint, variables are named by their current versions
+        ivn = self.cur(iv)
         args_now = [self.cur(v) for v in scope]
         bound = self.expr(bound_node)
         fuel = '(Z.to_nat (%s - %s%s))' % (bound, start, ' + 1' if first['opcode'] == '<=' else '')
         guard = self.cond(cn)
-        body_term = self.block(body_ss, lambda: '(%s fuel\' (%s + 1) %s)' % (
-            lname, self.cur(iv), ' '.join(self.cur(v) for v in scope)) if scope else '(%s fuel\' (%s + 1))' % (lname, self.cur(iv)))
-        result = self.tup([saved_ver_name(saved_ver, v) for v in carried])
-        sig = ' '.join('(%s : %s)' % (a, self.types[v]) for a, v in zip(args_now, scope))
-        rty = ' * '.join(self.types[v] for v in carried) if carried else 'unit'
-        orc = ' (orc : string -> list Z -> bool)' if True else ''
-        fix = ('Fixpoint %s%s (fuel : nat) (%s : Z) %s {struct fuel} : %s :=\n  match fuel with\n  | O => %s\n  | S fuel\' =>\n    if %s then\n%s\n    else %s\n  end.'
-               % (lname, orc, ivn, sig, rty, result, guard, indent(body_term.replace('(%s fuel' % lname, '(%s orc fuel' % lname), 6), result))
+        effectful = self.world and self.has_world_call(bdy)
+        wrap_ok = (lambda t: '(Ok %s)' % t) if effectful else (lambda t: t)
+        exit_now = lambda: wrap_ok(self.tup([self.cur(v) for v in results]))
+        prev_exit = self.loop_exit
+        self.loop_exit = exit_now
+        prefix = lname + (' orc' if True else '') + (' ' if True else '')
+        rec = lambda: '(%s orc fuel\' (%s + 1) %s)' % (lname, self.cur(iv), ' '.join(self.cur(v) for v in scope))
+        prev_cont = self.loop_continue
+        self.loop_continue = rec
+        body_term = self.block(body_ss, rec)
+        self.loop_exit = prev_exit
+        self.loop_continue = prev_cont
+        result0 = wrap_ok(self.tup([saved_ver_name(saved_ver, v) for v in results]))
+        tyof = lambda v: 'Wst' if self.types[v] == 'Wst' else self.types[v]
+        sig = ' '.join('(%s : %s)' % (a, tyof(v)) for a, v in zip(args_now, scope))
+        rty = ' * '.join(tyof(v) for v in results) if results else 'unit'
+        if effectful:
+            rty = 'res (%s)' % rty
+        fix = ('Fixpoint %s (orc : string -> list Z -> bool) (fuel : nat) (%s : Z) %s {struct fuel} : %s :=\n  match fuel with\n  | O => %s\n  | S fuel\' =>\n    if %s then\n%s\n    else %s\n  end.'
+               % (lname, ivn, sig, rty, result0, guard, indent(body_term, 6), result0))
         self.loops.append(fix)
         self.uses_orc = True
-        # after the loop
         self.ver = dict(saved_ver)
-        if iv in self.ver:
-            pass
-        news = [self.fresh(v) for v in carried]
+        news = [self.fresh(v) for v in results]
         call = '%s orc %s %s %s' % (lname, fuel, start, ' '.join(args_now))
-        if not carried:
+        if not results:
             return nxt()
+        if effectful:
+            return 'match %s with\n| Throw e_ m_ => Throw e_ m_\n| Ok %s =>\n%s\nend' % (call, self.tup(news) if len(news) > 1 else news[0], nxt())
         return 'let %s := %s in\n%s' % (self.pat(news), call, nxt())
 
     def check_only_incremented(self, bdy, iv):
@@ -794,6 +955,11 @@ class Fn:
             self.types[nm] = vt
             self._declared.add(nm)
             self.ver[nm] = 0
+        if self.world:
+            self.types['wld'] = 'Wst'
+            self._declared.add('wld')
+            self.ver['wld'] = 0
+            self.has_throw = True
         pre = []
         if ctor_inits:
             for c in kids(self.fn):
@@ -814,6 +980,8 @@ class Fn:
         rt = result_type
         term = self.block(kids(b), lambda: self.ret('tt'))
         allp = [(v, 'Z') for v in self.auto_params] + [(m, 'Z') for m in self.member_params] + list(self.extra_params) + ps
+        if self.world:
+            allp = allp + [('wld', 'Wst')]
         sig = ' '.join('(%s : %s)' % p for p in allp)
         orc = ' (orc : string -> list Z -> bool)' if self.uses_orc else ''
         if self.ret_scalar:
@@ -842,7 +1010,7 @@ def strip_casts(n):
 
 
 def is_enum(q):
-    return 'SortRule' in q or 'CompInfo' in q or 'GEigsMode' in q
+    return re.search(r'(^|::|\s)(SortRule|CompInfo|GEigsMode)$', canon(q)) is not None
 
 
 def walk_expr(n):
